@@ -22,17 +22,18 @@ VOWS_ALL = 'aeiouäéжø'
 class Words:
     """Unique, mutually substring-free words."""
 
-    def __init__(self, rng, nonascii=0.3):
+    def __init__(self, rng, nonascii=0.3, vows_all=VOWS_ALL):
         self.rng = rng
         self.n = rng.randrange(0, 5000)
         self.nonascii = nonascii
+        self.vows_all = vows_all
 
     def word(self, ascii_only=False):
         self.n += self.rng.randrange(1, 40)
         n = self.n
         vows = VOWS_ASCII
         if not ascii_only and self.rng.random() < self.nonascii:
-            vows = VOWS_ALL
+            vows = self.vows_all
         # bijective encoding of the counter in consonants (uniqueness), vowels
         # are free decoration
         body = ''
@@ -380,7 +381,8 @@ BASIC_KINDS = [k for k in GENERATORS if k not in ML_KINDS]
 
 
 def gen_document(rng, n_frags=None, kinds=None, ml=False, lang='en-GB',
-                 nonascii=0.3, swarm=True, end_newline=None, W=None):
+                 nonascii=0.3, swarm=True, end_newline=None, W=None,
+                 ensure_foreign=False):
     """Returns a list of fragments.  swarm: enable a random subset of kinds."""
     if W is None:
         W = Words(rng, nonascii)
@@ -397,8 +399,11 @@ def gen_document(rng, n_frags=None, kinds=None, ml=False, lang='en-GB',
         n_frags = rng.randrange(1, 25)
     ctx = {'lang': lang}
     frags = []
-    for _ in range(n_frags):
+    forced = rng.randrange(n_frags) if (ml and ensure_foreign) else -1
+    for i in range(n_frags):
         k = rng.choice(kinds)
+        if i == forced:
+            k = rng.choice(['foreign_long', 'foreign_short', 'otherlanguage'])
         fr = GENERATORS[k](rng, W, ctx)
         if ctx['lang'] != lang:
             # after \selectlanguage: literal words are in the new language
